@@ -85,6 +85,26 @@ def post_c16(prop, tier, seed, results, build, log):
     return miri_tt(prop, tier, seed, 16, 60, log, 3600)
 
 
+def asan_death(prop, r):
+    """a worker killed by a sanitizer report is a violation, anything else is left to the default handling"""
+    err = r.get("stderr", "")
+    if "AddressSanitizer" in err or "LeakSanitizer" in err:
+        lines = err.splitlines()
+        start = next((i for i, l in enumerate(lines) if "ERROR: AddressSanitizer" in l or "ERROR: LeakSanitizer" in l), 0)
+        frames = [l.strip() for l in lines[start:start + 40] if "/repo/" in l][:4]
+        head = lines[start] if lines else ""
+        import re
+        kind = re.sub(r"0x[0-9a-f]+", "ADDR", head)
+        kind = re.sub(r"==\d+==", "", kind).strip()
+        return {"property": prop, "kind": "asan_report", "tags": ["asan"],
+                "detail": {"report_head": kind, "first_repo_frames": frames, "shard": r["shard"], "variant": r["variant"]},
+                "replay": {"seed": None, "case": None, "tier": "quick", "args": []}}
+    return None
+
+
+ASAN_ENV = {"ASAN_OPTIONS": "halt_on_error=1:abort_on_error=0:detect_leaks=0:exitcode=77", "RUST_BACKTRACE": "0"}
+
+
 PROPS = {
     "C01": {
         "eval_counter": "token_checks",
@@ -301,5 +321,25 @@ PROPS = {
         "quick": {"runs": [q(deadline=24), dict(q(deadline=15), variant="chk")], "floor": {"cases": 3000, "distinct_nontrivial": 1500, "add_bias_walks": 5000, "svob_checks": 10000, "tokenize_roundtrips": 1000, "miri.cases": 8}},
         "thorough": {"runs": [q(deadline=900, watchdog=3600), dict(q(deadline=600, watchdog=3600), variant="chk"), dict(q(deadline=600, watchdog=3600), variant="asan")],
                      "floor": {"cases": 100000, "distinct_nontrivial": 30000}},
+    },
+    "C17": {
+        "worker_death": asan_death,
+        "eval_counter": "mask_comparisons",
+        "case_counter": "cases",
+        "rule": "case = (vocabulary size in {224,255,256,257,288,511,512,513,1001}, grammar, walk); even idx: llg_new_constraint_any / "
+                "llg_compute_mask / llg_commit_token / llg_clone_constraint / llg_par_compute_mask mirrored step by step on a Rust "
+                "Constraint built from the same factory inputs (masks word by word, is_stop, commit status, returned tokens, is_stopped), "
+                "with ~8% illegal tokens (out of range, not in mask); llg_par_compute_mask is given destination buffers of many lengths "
+                "(random multiples of 4 bytes from 0 to mask+32, plus mask and mask+4) each with 64-byte canaries before and after and "
+                "pre-filled with 0xAA: canaries intact, prefix == Rust mask, tail zero-filled, no bit >= vocab. Odd idx: llg_matcher_* "
+                "mirrored on a Rust Matcher (compute_mask_into with exact and wrong sizes, compute_mask/get_mask, is_accepting, is_stopped, "
+                "validate_tokens, compute_ff_tokens into short guarded buffers, rollback, consume). The same workload is run under "
+                "AddressSanitizer (variant asan) so that reads outside the engine's own mask abort the worker. evaluations = mask "
+                "comparisons C vs Rust. Non-trivial = case with >=2 committed tokens; distinct by (grammar, history, vocabulary size, api).",
+        "assumptions": ["the C functions are called from Rust (no C compiler in the loop); Miri cannot cross a real C boundary"],
+        "quick": {"runs": [q(deadline=30), dict(q(deadline=40, watchdog=900), variant="asan", env=ASAN_ENV)],
+                  "floor": {"cases": 500, "mask_comparisons": 3000, "par_buffers_checked": 5000, "distinct_nontrivial": 300}},
+        "thorough": {"runs": [q(deadline=900, watchdog=3600), dict(q(deadline=1200, watchdog=3600), variant="asan", env=ASAN_ENV)],
+                     "floor": {"cases": 20000, "mask_comparisons": 200000}},
     },
 }
